@@ -122,7 +122,7 @@ def build_one(args):
         asm, n = rx.subn(rep, asm)
         ntraps += n
     asmflags = [f for f in flags if f.startswith(("-m", "-fsanitize", "-g"))]
-    p2 = subprocess.run([cc, "-c", "-x", "assembler", "-", "-o", objp] + [f for f in asmflags if f.startswith("-m")],
+    p2 = subprocess.run([cc, "-c", "-x", "assembler", "-", "-o", objp] + [f for f in asmflags if re.match(r"-m(sse|avx|fpu|arch|tune|no-)", f)],
                         input=asm, capture_output=True, text=True)
     if p2.returncode != 0:
         return (src, False, p2.stderr)
@@ -157,6 +157,8 @@ def main():
     variant = ""
     if fl.startswith("tsanhook_"):
         fl, variant = "tsanhook", fl.split("_", 1)[1]
+    if fl.startswith("cthook_"):
+        fl, variant = "cthook", fl.split("_", 1)[1]
     cc = a.cc or ("clang" if fl == "asan" or variant == "clang" else "gcc")
     lines = repo_compile_lines(a.repo, a.makevar)
     extra = []
@@ -175,6 +177,17 @@ def main():
             extra += ["-fsanitize-coverage=trace-pc-guard"]
         else:
             extra += ["-fsanitize-coverage=trace-pc"]
+    elif fl == "cthook":
+        # ctsim (C08): every load and store of library code, INCLUDING reads of constant tables (which -fsanitize=thread
+        # does not instrument), becomes an out-of-line call into our own call-backs; basic blocks through trace-pc.
+        if variant == "o0":
+            opt = opt or "-O0"
+        if cc.startswith("clang"):
+            extra += ["-fsanitize=kernel-address", "-mllvm", "-asan-instrumentation-with-call-threshold=0", "-mllvm", "-asan-globals=0", "-mllvm", "-asan-stack=0",
+                      "-fsanitize-coverage=trace-pc-guard", "-g"]
+        else:
+            extra += ["-fsanitize=kernel-address", "--param", "asan-instrumentation-with-call-threshold=0", "--param", "asan-globals=0", "--param", "asan-stack=0",
+                      "-fsanitize-coverage=trace-pc", "-g"]
     elif fl in ("plain", "cfg"):
         pass
     else:
